@@ -42,6 +42,15 @@ CHECKS = {
         "note": 'Fixture module with three packages in three layouts; bounds of Loop A per cfg (2-3 packages, 2 generators, 3-5 runs, 1-2 environment actions). Real map/sync.Map orders are sampled (fresh process per run), all orders only in the model. Crash points inside WriteToFile/Save not enumerated.',
         "technique": _TLC,
     },
+    "C06": {
+        "level": "model_checking",
+        "text": "Dispatch.tla defines effective tags (declaration over package over global, per key), the enabling rule over segment-structured keys (decisive gengo:<name>, else any "
+                "gengo:<name>:<sub>) and the expected callback sequence; TLC checks precedence and no-prefix-confusion over the whole lattice; every (global, package) placement x generator "
+                "list is materialised with all 24 declaration-level placement x kind combinations plus local types, type parameters and a tagged foreign package, run in fresh processes, and "
+                "DispatchTrace.tla compares the callback log (kind, generator, type, go/types object kind) and the deferred-callback discipline (once each, after the last call, before the write).",
+        "note": "Exhaustive over the 6x6x6 placement lattice for one tag family and 4 generator lists; one value per key per level; tags in one package comment only.",
+        "technique": _TLC,
+    },
     "C03": {
         "level": "model_checking",
         "text": "ImportTracker.tla states the permissive contract of the import table (exactly the referenced foreign packages; valid non-keyword identifiers; injective; "
